@@ -659,17 +659,26 @@ func (b *BaseStore) joinWithLimit(oplog ipfslog.Log, l ipfslog.Log, amount int) 
 // replication does, and the refused ones are left out.
 func (b *BaseStore) joinVerified(oplog ipfslog.Log, l ipfslog.Log) error {
 	var err error
-	if entriesBelongToLog(l, oplog.GetID()) {
+	misaddressed := b.misaddressedEntries(l)
+
+	switch {
+	case len(misaddressed) > 0:
+		err = fmt.Errorf("log holds entries that do not hash to their address")
+	case !entriesBelongToLog(l, oplog.GetID()):
+		err = fmt.Errorf("log holds entries written for another log")
+	default:
 		if _, err = oplog.Join(l, -1); err == nil {
 			return nil
 		}
-	} else {
-		err = fmt.Errorf("log holds entries written for another log")
 	}
 
 	joined := false
 	for _, e := range l.Values().Slice() {
 		if e.GetLogID() != oplog.GetID() {
+			continue
+		}
+
+		if _, ok := misaddressed[e.GetHash()]; ok {
 			continue
 		}
 
@@ -698,6 +707,42 @@ func (b *BaseStore) joinVerified(oplog ipfslog.Log, l ipfslog.Log) error {
 	}
 
 	return nil
+}
+
+// misaddressedEntries returns the entries of l, a log read back by following
+// addresses, that do not hash to the address they were read by (the replicator
+// refuses them when it fetches them, but they stay reachable from the valid
+// entries that name them). A block store keyed by digest serves the same
+// bytes under an address that only differs by its codec: only entries whose
+// address is not of the same kind as the heads of l, which were verified when
+// they were written or announced, need to be hashed again.
+func (b *BaseStore) misaddressedEntries(l ipfslog.Log) map[cid.Cid]struct{} {
+	heads := l.Heads().Slice()
+	if len(heads) == 0 {
+		return nil
+	}
+
+	expected := heads[0].GetHash().Prefix()
+
+	var misaddressed map[cid.Cid]struct{}
+	for _, e := range l.GetEntries().Slice() {
+		if e.GetHash().Prefix() == expected {
+			continue
+		}
+
+		written, err := b.IO().Write(b.ctx, b.IPFS(), e, nil)
+		if err == nil && written.Equals(e.GetHash()) {
+			continue
+		}
+
+		if misaddressed == nil {
+			misaddressed = map[cid.Cid]struct{}{}
+		}
+
+		misaddressed[e.GetHash()] = struct{}{}
+	}
+
+	return misaddressed
 }
 
 func (b *BaseStore) Sync(ctx context.Context, heads []ipfslog.Entry) error {
